@@ -50,41 +50,43 @@ package config
 // there is none)"; every entry is merged from the interface's config (C08: entry, then interface).
 //   srcOK(c): c can be the less specific side of a merge; destOK(s, d): d can be merged into from s.
 //@ define srcOK(c *Config) bool = c != nil && allocated(c) && allPtrFieldsSet(c)
-//@ func (*InterfaceConfig).Initialize props=C07,C08
-//@   requires srcOK(c.Config) && Ghost() && Shape()
+//@ func (*InterfaceConfig).Initialize props=C07,C08,C09
+//@   requires srcOK(c.Config) && Ghost()
 //@   site mergeConfigs: $1 == *c.Config && $2 == subCfg
 //@   ensures#one old(len(c.Configs)) == 0 ==> len(c.Configs) == 1 && c.Configs[0] == c.Config
-//@   ensures#same old(len(c.Configs)) > 0 ==> len(c.Configs) == old(len(c.Configs)) && (forall i int :: 0 <= i && i < len(c.Configs) ==> c.Configs[i] == old(c.Configs[i]))
+//@   ensures#same old(len(c.Configs)) > 0 ==> len(c.Configs) == old(len(c.Configs)) && (forall i int :: 0 <= i && i < len(c.Configs) && old(c.Configs[i]) != nil ==> c.Configs[i] == old(c.Configs[i]))
 //@   ensures#nil err == nil
 //@   ensures#nonempty len(c.Configs) >= 1
-//@   ensures#wf forall i int :: 0 <= i && i < len(c.Configs) ==> allPtrFieldsSet(c.Configs[i])
-//@   ensures#tree Ghost() && Shape() && c.Config == old(c.Config) && srcOK(c.Config)
+//@   ensures#wf forall i int :: 0 <= i && i < len(c.Configs) ==> c.Configs[i] != nil && allPtrFieldsSet(c.Configs[i])
+//@   ensures#tree Ghost() && c.Config == old(c.Config) && srcOK(c.Config)
 //@   ensures#frame forall d *Config :: old(allocated(d)) && (forall i int :: 0 <= i && i < old(len(c.Configs)) ==> old(c.Configs[i]) != d) ==> *d == old(*d)
 //@   ensures#mono forall d *Config :: old(allPtrFieldsSet(d)) ==> allPtrFieldsSet(d)
-//@   ensures#otherifaces forall ic *InterfaceConfig :: ic != c ==> ic.Configs == old(ic.Configs) && ic.Config == old(ic.Config)
-//@   loop 0: invariant Ghost() && Shape() && srcOK(c.Config) && c.Config == old(c.Config) && c.Configs == old(c.Configs)
+//@   ensures#otherifaces forall ic *InterfaceConfig :: old(allocated(ic)) && ic != c ==> ic.Configs == old(ic.Configs) && ic.Config == old(ic.Config)
+//@   loop 0: invariant Ghost() && srcOK(c.Config) && c.Config == old(c.Config)
 //@   loop 0: invariant#mono forall d *Config :: old(allPtrFieldsSet(d)) ==> allPtrFieldsSet(d)
-//@   loop 0: invariant forall j int :: 0 <= j && j < $i ==> allPtrFieldsSet(c.Configs[j])
+//@   loop 0: invariant forall j int :: 0 <= j && j < $i ==> c.Configs[j] != nil && allPtrFieldsSet(c.Configs[j])
+//@   loop 0: invariant#same len(c.Configs) == old(len(c.Configs)) && (forall j int :: 0 <= j && j < len(c.Configs) && old(c.Configs[j]) != nil ==> c.Configs[j] == old(c.Configs[j]))
+//@   loop 0: invariant#newfresh forall j int :: 0 <= j && j < len(c.Configs) && old(c.Configs[j]) == nil && c.Configs[j] != nil ==> fresh(c.Configs[j])
 //@   loop 0: invariant#frame forall d *Config :: old(allocated(d)) && (forall i int :: 0 <= i && i < len(c.Configs) ==> c.Configs[i] != d) ==> *d == old(*d)
 //@   assigns c.Configs, fields(Config), maps(map[string]any), fresh
 
 // Every interface of the package inherits from the package's config (C08: ..., then the package's config).
 //@ define ifaceDone(ic *InterfaceConfig) bool = ic != nil && ic.Config != nil && allPtrFieldsSet(ic.Config) && len(ic.Configs) >= 1
 //@ func (*PackageConfig).Initialize props=C08,C07
-//@   requires srcOK(c.Config) && Ghost() && Shape()
+//@   requires srcOK(c.Config) && Ghost()
 //@   site mergeConfigs: $1 == *c.Config && $2 == ifaceConfig.Config
 //@   ensures#nil err == nil
 //@   ensures#keys forall k string :: (k in c.Interfaces) <==> old(k in c.Interfaces)
 //@   ensures#done forall k string :: (k in c.Interfaces) ==> ifaceDone(c.Interfaces[k])
-//@   ensures#entries forall k string, i int :: (k in c.Interfaces) && 0 <= i && i < len(c.Interfaces[k].Configs) ==> allPtrFieldsSet(c.Interfaces[k].Configs[i])
+//@   ensures#entries forall k string, i int :: (k in c.Interfaces) && 0 <= i && i < len(c.Interfaces[k].Configs) ==> c.Interfaces[k].Configs[i] != nil && allPtrFieldsSet(c.Interfaces[k].Configs[i])
 //@   ensures#mono forall d *Config :: old(allPtrFieldsSet(d)) ==> allPtrFieldsSet(d)
-//@   ensures#tree Ghost() && Shape() && srcOK(c.Config) && c.Config == old(c.Config) && c.Interfaces == old(c.Interfaces)
-//@   loop 0: invariant Ghost() && Shape() && srcOK(c.Config) && c.Config == old(c.Config) && c.Interfaces == old(c.Interfaces)
+//@   ensures#tree Ghost() && srcOK(c.Config) && c.Config == old(c.Config) && c.Interfaces == old(c.Interfaces)
+//@   loop 0: invariant Ghost() && srcOK(c.Config) && c.Config == old(c.Config) && c.Interfaces == old(c.Interfaces)
 //@   loop 0: invariant#keys forall k string :: (k in c.Interfaces) <==> old(k in c.Interfaces)
 //@   loop 0: invariant#othermaps forall m map[string]*InterfaceConfig :: m != c.Interfaces ==> unchanged(m)
 //@   loop 0: invariant#mono forall d *Config :: old(allPtrFieldsSet(d)) ==> allPtrFieldsSet(d)
 //@   loop 0: invariant#done forall k string :: (k in c.Interfaces) && $visited[k] ==> ifaceDone(c.Interfaces[k])
-//@   loop 0: invariant#entries forall k string, i int :: (k in c.Interfaces) && $visited[k] && 0 <= i && i < len(c.Interfaces[k].Configs) ==> allPtrFieldsSet(c.Interfaces[k].Configs[i])
+//@   loop 0: invariant#entries forall k string, i int :: (k in c.Interfaces) && $visited[k] && 0 <= i && i < len(c.Interfaces[k].Configs) ==> c.Interfaces[k].Configs[i] != nil && allPtrFieldsSet(c.Interfaces[k].Configs[i])
 //@   assigns c.Interfaces, fields(InterfaceConfig), fields(Config), maps(map[string]any), fresh
 
 //@ func NewInterfaceConfig props=C07,C08
@@ -96,22 +98,22 @@ package config
 // from the recursive package (C07).
 //@ define pkgDone(pc *PackageConfig) bool = pc != nil && pc.Config != nil && allPtrFieldsSet(pc.Config)
 //@ func (*RootConfig).Initialize props=C08,C07
-//@   requires Ghost() && Shape() && allPtrFieldsSet(c.Config) && depth(c.TemplateData) == 0 && depth(c.Anchors) == 0
+//@   requires Ghost() && allPtrFieldsSet(c.Config) && depth(c.TemplateData) == 0 && depth(c.Anchors) == 0
 //@   site mergeConfigs@0: $1 == c.Config && $2 == pkgConfig.Config
 //@   site mergeConfigs@1: $1 == *parentPkgConfig.Config && $2 == subPkgConfig.Config
 //@   ensures#done err == nil ==> (forall k string :: (k in c.Packages) ==> pkgDone(c.Packages[k]))
 //@   ensures#keys forall k string :: old(k in c.Packages) ==> (k in c.Packages)
-//@   ensures#tree Ghost() && Shape() && c.Config == old(c.Config) && c.Packages == old(c.Packages)
-//@   loop 0: invariant Ghost() && Shape() && c.Config == old(c.Config) && c.Packages == old(c.Packages)
+//@   ensures#tree Ghost() && c.Config == old(c.Config) && c.Packages == old(c.Packages)
+//@   loop 0: invariant Ghost() && c.Config == old(c.Config) && c.Packages == old(c.Packages)
 //@   loop 0: invariant#keys forall k string :: (k in c.Packages) <==> old(k in c.Packages)
 //@   loop 0: invariant#mono forall d *Config :: old(allPtrFieldsSet(d)) ==> allPtrFieldsSet(d)
 //@   loop 0: invariant#done forall k string :: (k in c.Packages) && $visited[k] ==> pkgDone(c.Packages[k])
 //@   loop 0: invariant#rec forall j int :: 0 <= j && j < len(recursivePackages) ==> (recursivePackages[j] in c.Packages) && $visited[recursivePackages[j]]
-//@   loop 1: invariant Ghost() && Shape() && c.Packages == old(c.Packages) && c.Config == old(c.Config)
+//@   loop 1: invariant Ghost() && c.Packages == old(c.Packages) && c.Config == old(c.Config)
 //@   loop 1: invariant#keys forall k string :: old(k in c.Packages) ==> (k in c.Packages)
 //@   loop 1: invariant#done forall k string :: (k in c.Packages) ==> pkgDone(c.Packages[k])
 //@   loop 1: invariant#mono forall d *Config :: old(allPtrFieldsSet(d)) ==> allPtrFieldsSet(d)
-//@   loop 2: invariant Ghost() && Shape() && c.Packages == old(c.Packages) && c.Config == old(c.Config) && pkgDone(parentPkgConfig) && (recursivePackageName in c.Packages) && c.Packages[recursivePackageName] == parentPkgConfig
+//@   loop 2: invariant Ghost() && c.Packages == old(c.Packages) && c.Config == old(c.Config) && pkgDone(parentPkgConfig) && (recursivePackageName in c.Packages) && c.Packages[recursivePackageName] == parentPkgConfig
 //@   loop 2: invariant#keys forall k string :: old(k in c.Packages) ==> (k in c.Packages)
 //@   loop 2: invariant#done forall k string :: (k in c.Packages) ==> pkgDone(c.Packages[k])
 //@   loop 2: invariant#mono forall d *Config :: old(allPtrFieldsSet(d)) ==> allPtrFieldsSet(d)
